@@ -232,6 +232,9 @@ func run(w *world, ref *state.StateDB, preRoot common.Hash, code []byte, c confi
 			if strings.HasPrefix(r.faultOp, "Missing") {
 				r.faultOp = fmt.Sprintf("0x%02x", byte(p.curOp))
 			}
+			if p.curShared { // root cause visible in the trace, see jumpref.go
+				r.faultOp += sharedTag
+			}
 		}
 		r.rqSteps, r.rqExceeded = p.rqSteps, p.rqExceeded
 		if p.exceeded || p.rqExceeded {
